@@ -319,9 +319,56 @@ func findPath(f *ssa.Function, from ssa.Instruction, barrier, target func(ssa.In
 // predFilter additionally sees the block through which b was entered (nil at the start).
 type predFilter func(pred, b *ssa.BasicBlock, succIdx int) bool
 
+// wrapperBarriers: a plain call of a function of the same package all of whose returns lie behind an instruction the
+// barrier accepts is itself accepted as the barrier (the step was moved into a helper: putSavedID(store),
+// logMappedSet(...), lockedNodeRequestAllowed(...)).  One level; the helper is searched with the caller's predicate.
+var wrapperBarriers = true
+var wrapDepth int
+
 func findPath2(f *ssa.Function, from ssa.Instruction, barrier, target func(ssa.Instruction) bool, feasible edgeFilter, pf predFilter) []ssa.Instruction {
 	if len(f.Blocks) == 0 {
 		return nil
+	}
+	if barrier != nil && wrapperBarriers && wrapDepth == 0 {
+		orig := barrier
+		memo := map[*ssa.Function]bool{}
+		barrier = func(in ssa.Instruction) bool {
+			if orig(in) {
+				return true
+			}
+			c, ok := in.(*ssa.Call)
+			if !ok {
+				return false
+			}
+			g := c.Call.StaticCallee()
+			if g == nil || g == f || len(g.Blocks) == 0 || len(g.Blocks) > 80 || g.Pkg == nil || g.Pkg != f.Pkg || g.Parent() != nil {
+				return false
+			}
+			if v, ok := memo[g]; ok {
+				return v
+			}
+			memo[g] = false
+			has := false
+			for _, b := range g.Blocks {
+				for _, x := range b.Instrs {
+					if orig(x) {
+						has = true
+						break
+					}
+				}
+				if has {
+					break
+				}
+			}
+			if !has {
+				return false
+			}
+			wrapDepth++
+			p := findPath2(g, nil, orig, func(x ssa.Instruction) bool { _, isRet := x.(*ssa.Return); return isRet }, nil, nil)
+			wrapDepth--
+			memo[g] = p == nil
+			return memo[g]
+		}
 	}
 	type item struct {
 		b    *ssa.BasicBlock
